@@ -26,5 +26,6 @@ func vEngines() []drv.Runner {
 			Gen: func(t *rapid.T) c01Case { return c01Case{Script: genScript(t, c01Opts)} },
 			Run: func(t *testing.T, c c01Case, st *drv.Stats) *drv.Failure { return runSeq(t, c.Script, st, nil) },
 		}),
+		drv.Wrap(drv.Engine[c04Case]{Property: "C04", Name: "c04", Gen: genC04, Run: runC04}),
 	}
 }
